@@ -7,25 +7,33 @@ import os
 import core
 from core import LeanDriver, canon
 import lib_store as L
-from gen import storeconsts
+from gen import storeconsts, storeflow
 
 ID = "C05"
-GENERATORS = [storeconsts.generate]
+GENERATORS = [storeconsts.generate, storeflow.generate]
 LEAN_MODULES = ["FimVerif.Proofs.C05"]
 P = "FimVerif.C05."
-THEOREMS = [P + t for t in ("identity_unset_refused", "identity_names_listed", "class_update_refused",
+THEOREMS = [P + t for t in ("flow_is_modelled", "identity_unset_refused", "identity_names_listed", "class_update_refused",
                               "class_update_refused_step", "none_value_refused", "bulk_update_stores_every_value",
                               "identity_props_protected", "identity_merge_class_counterexample",
                               "add_node_existing_id_refused", "nid_unique", "nid_unique_reachable",
                               "merge_keeps_edges", "merge_policy", "merge_failure_atomic",
                               "merge_frame", "shared_refines_spec", "shared_refines_history", "disjoint_refines_spec",
-                              "disjoint_refines_history", "backends_agree")]
+                              "disjoint_refines_history", "backends_agree",
+                              "store_refines_reference", "unique_keys_reachable", "store_refines_reference_history", "view_absS",
+                              "content_after_history", "nid_unique_rewrite_counterexample",
+                              "backends_diverge_on_rehoming_counterexample", "disjoint_container_refines_reference",
+                              "disjoint_find_matching_refines", "backends_agree_find_matching")]
 TRUSTED_BASE = [
     "Model/Store.lean, Model/DStore.lean mirror the two backends method by method; Model/AGraph.lean (`AGraph.step`) is the "
     "reference model of the documented interface (hand-written; all three are run in lock step against the real classes)",
     "networkx Graph methods, nx.contracted_nodes (edges of the absorbed node are re-attached to the survivor; an edge that "
     "already exists keeps its own properties), networkx_query.search_nodes are modelled, not verified",
-    "gen/storeconsts.py: NO_UNSET_PROPERTIES, NETWORKX_LABEL and property-name constants read from the source",
+    "gen/storeconsts.py: NO_UNSET_PROPERTIES, NETWORKX_LABEL and property-name constants read from the source; "
+    "gen/storeflow.py: allocator and GraphID-filter facts observed by probing the real classes (flow_is_modelled)",
+    "Model/ARef.lean (`ARef.step`): the store-level reference model (nodes + links between (GraphID, NodeID) keys); tied to the "
+    "code by its own correspondence stream (R: reply + whole store without internal ids after every call, merges included) and "
+    "to the shared-store model by the refinement theorems",
     "list results are compared as sorted lists (dict/set order is not part of the interface)",
     "harness/props/c05.py `Ref`: an independent python reference of the documented interface used only by the oracle "
     "(three-way comparison); the Lean `AGraph.step` is tied to the code by its own correspondence stream (A)",
@@ -60,7 +68,10 @@ def load_corpus():
     return out
 
 
-def gen_histories(ctx, tag, n, length):
+STORE_KINDS = ["add_graph", "add_graph", "add_graph_direct", "clone", "clone", "merge_nodes", "merge_nodes"]
+
+
+def gen_histories(ctx, tag, n, length, keys=0.0, store=False):
     """state-aware generator: node and link operations are biased towards nodes / links that earlier requests of the
     same history created (otherwise almost every link operation fails on "no such link")"""
     rng = ctx.sub_rng(tag)
@@ -68,12 +79,17 @@ def gen_histories(ctx, tag, n, length):
     gids, nids = ["g1", "g2", "g3"], ["n1", "n2", "n3", "n4"]
     for _ in range(n):
         h, sh = [], L.Shadow()
+        if store and rng.random() < 0.25:
+            _, h = L.gen_scenario(rng, gids, nids)
+            for r in h:
+                sh.note(r)
         for _ in range(rng.randint(2, 7)):
             h.append(L.gen_op(rng, gids[:2] if rng.random() < 0.7 else gids, nids[:3], kinds=["add_node"]))
             sh.note(h[-1])
         want = rng.randint(8, length)
+        kinds = C05_KINDS + (STORE_KINDS if store else [])
         while len(h) < want:
-            h.append(sh.aim(rng, L.gen_op(rng, gids, nids, kinds=C05_KINDS), gids))
+            h.append(sh.aim(rng, L.gen_op(rng, gids, nids, kinds=kinds, keys=keys, delall=0.01 if keys else 0.0), gids))
             sh.note(h[-1])
         hs.append(h)
     return hs
@@ -88,10 +104,11 @@ class RefErr(Exception):
 
 
 class Ref:
-    """Node dictionaries per graph id and one list of links over those dictionaries (by object identity; no
-    internal ids).  A link joins two nodes of one graph, except that merge_nodes re-attaches the links of the
-    absorbed node to the survivor, which may leave a link between nodes of two graphs; such a link belongs to
-    neither graph's content until the caller re-homes the other graph (merge_adm does)."""
+    """One list of node dictionaries (GraphID inside, as the interface shows it) and one list of links over those
+    dictionaries (by object identity; no internal ids, no per-graph containers).  A node belongs to graph g while its
+    GraphID property equals g - rewriting the property re-homes it, links included.  merge_nodes re-attaches the links of
+    the absorbed node to the survivor, which may leave a link between nodes of two graphs; such a link belongs to neither
+    graph's content until one end is re-homed (merge_adm does that)."""
     NO_UNSET = None
     LABEL = None
 
@@ -99,14 +116,14 @@ class Ref:
         from fim.graph.abc_property_graph_constants import ABCPropertyGraphConstants as C
         Ref.NO_UNSET = list(C.NO_UNSET_PROPERTIES)
         Ref.LABEL = C.PROP_CLASS
-        self.g = {}
+        self.N = []
         self.E = []
 
     def gr(self, g):
-        return self.g.setdefault(g, [])
+        return [n for n in self.N if n.get("GraphID") == g and isinstance(n.get("GraphID"), str)]
 
     def find(self, g, nid):
-        m = [n for n in self.gr(g) if n.get("NodeID") == nid]
+        m = [n for n in self.gr(g) if n.get("NodeID") == nid and isinstance(n.get("NodeID"), str)]
         if len(m) != 1:
             raise RefErr("query")
         return m[0]
@@ -131,6 +148,7 @@ class Ref:
         return [n["NodeID"] for n in nodes]
 
     def drop_nodes(self, nodes):
+        self.N = [n for n in self.N if not any(n is x for x in nodes)]
         self.E = [e for e in self.E if not any(e[0] is n or e[1] is n for n in nodes)]
 
     def apply(self, req):
@@ -141,18 +159,19 @@ class Ref:
 
     def do(self, req):
         op, g, a = req[0], req[1], req[2:]
-        G = self.gr(g)
         LABEL = self.LABEL
+        if op == "delete_all_graphs":
+            self.N, self.E = [], []
+            return None
+        G = self.gr(g)
         if op == "add_node":
             if any(n.get("NodeID") == a[0] for n in G):
                 raise RefErr("query")
-            d = {LABEL: a[1], "NodeID": a[0]}
+            d = {"GraphID": g, LABEL: a[1], "NodeID": a[0]}
             d.update(a[2] or {})
-            G.append(d)
+            self.N.append(d)
         elif op == "delete_node":
-            n = self.find(g, a[0])
-            self.g[g] = [x for x in G if x is not n]
-            self.drop_nodes([n])
+            self.drop_nodes([self.find(g, a[0])])
         elif op == "add_link":
             na, nb = self.find(g, a[0]), self.find(g, a[2])
             if a[3] and LABEL in a[3]:
@@ -204,13 +223,11 @@ class Ref:
             self.link(g, a[0], a[1], a[2])[2].update(a[3])
         elif op == "delete_graph":
             self.drop_nodes(G)
-            self.g[g] = []
         elif op == "get_node_properties":
             n = dict(self.find(g, a[0]))
             if LABEL not in n:
                 raise RefErr("key")
             lab = n.pop(LABEL)
-            n["GraphID"] = g
             return [lab, [[k, v] for k, v in n.items()]]
         elif op == "get_link_properties":
             na, nb = self.find(g, a[0]), self.find(g, a[1])
@@ -241,8 +258,15 @@ class Ref:
             if not G:
                 raise RefErr("query")
             mine = self.nids(G)
-            theirs = self.nids(self.gr(a[0]))
-            return sorted(set(mine) & set(theirs))
+            if any(isinstance(x, (list, dict)) for x in mine):
+                raise RefErr("type")            # node ids are collected into sets: a list-valued id cannot be one
+            for n in self.gr(a[0]):
+                if "NodeID" not in n:
+                    raise RefErr("key")
+                if isinstance(n["NodeID"], (list, dict)):
+                    raise RefErr("type")
+            theirs = [n["NodeID"] for n in self.gr(a[0])]
+            return [x for i, x in enumerate(mine) if x in theirs and x not in mine[:i]]
         elif op == "merge_nodes":
             O = self.gr(a[1])
             if not O:
@@ -264,9 +288,8 @@ class Ref:
                               else [val, theirs[k]] if pol[k] == "combine" else None)
             # the absorbed node leaves the other graph; each of its links is re-attached to the survivor unless the
             # survivor already has a link to that neighbour, which then stays as it is
-            self.g[a[1]] = [x for x in O if x is not v]
             moved = [e for e in self.E if e[0] is v or e[1] is v]
-            self.E = [e for e in self.E if e[0] is not v and e[1] is not v]
+            self.drop_nodes([v])
             for e in moved:
                 w, x = (u if e[0] is v else e[0]), (u if e[1] is v else e[1])
                 if self.edge(w, x) is None:
@@ -279,7 +302,7 @@ class Ref:
 
     def content(self, g):
         G = self.gr(g)
-        nodes = sorted(canon(sorted([k, v] for k, v in n.items())) for n in G)
+        nodes = sorted(canon(sorted([k, v] for k, v in n.items() if k != "GraphID")) for n in G)
         edges = sorted(canon([sorted([canon(e[0].get("NodeID")), canon(e[1].get("NodeID"))]), sorted([k, v] for k, v in e[2].items())])
                        for e in self.E if any(e[0] is n for n in G) and any(e[1] is n for n in G))
         return {"nodes": nodes, "edges": edges}
@@ -289,10 +312,17 @@ class Ref:
 # correspondence: real backends vs the Lean models (Store, DStore) and the Lean reference (AGraph)
 
 def correspondence(ctx, res):
-    hs = gen_histories(ctx, "corr", ctx.scale(150, 1500), 40)
-    run_correspondence(hs, res)
-    res.sample({"history": hs[-1][:6], "note": "S: shared store vs Store.step; D: disjoint store vs DStore.step; "
-                "A: shared store's per-graph content vs AGraph.step on the abstraction"})
+    n = ctx.scale(150, 1500)
+    hs = gen_histories(ctx, "corr", n, 40)
+    # second stream: GraphID / NodeID rewrites (updates, initial properties, merge policies), delete_all_graphs, and the
+    # storage operations (imports, direct imports, clones) next to the property-graph ones
+    hs2 = gen_histories(ctx, "corr-keys", n // 2, 40, keys=0.12, store=True)[len(load_corpus()):]
+    run_correspondence(hs + hs2, res)
+    res.count("histories:plain", len(hs))
+    res.count("histories:key-rewrites+storage", len(hs2))
+    res.sample({"history": hs2[-1][:6], "note": "S: shared store vs Store.step; D: disjoint store vs DStore.step; "
+                "A: shared store's per-graph content vs AGraph.step on the abstraction; R: shared store without its internal "
+                "ids (nodes + links between (GraphID, NodeID) keys) vs the store-level reference ARef.step, merges included"})
 
 
 def run_correspondence(hs, res):
@@ -341,6 +371,7 @@ def run_correspondence(hs, res):
             if any(r[0] == "err" for r, _ in impl[hi]) and len(set(q[1] for q in h)) >= 2:
                 res.nontrivial.add(L.kind_seq(h))
     run_reference_correspondence(hs, res)
+    run_store_reference_correspondence(hs, res)
 
 
 def lean_content(c):
@@ -363,8 +394,8 @@ def run_reference_correspondence(hs, res):
         meta.append(None)
         tr = []
         for k, req in enumerate(h):
-            if req[0] == "merge_nodes":
-                break
+            if req[0] in ("merge_nodes", "delete_all_graphs", "add_graph", "add_graph_direct", "clone") or L.writes_keys(req):
+                break       # AGraph.step is the per-graph reference: no second graph, no re-homing (the R stream has them)
             rep = L.canon_reply(req[0], be.apply(req))
             tr.append((rep, {g: be.content(g) for g in gids}))
             lines.append(json.dumps(["A", req]))
@@ -395,6 +426,59 @@ def run_reference_correspondence(hs, res):
                                       "impl": exp, "model": got})
 
 
+def keys_unique(be):
+    """the (GraphID, NodeID) keys of the stored nodes are pairwise distinct (Lean: UniqueKeys)"""
+    ks = [canon([d.get("GraphID", "<missing>"), d.get("NodeID", "<missing>")]) for _, G in be._graphs() for _, d in G.nodes(data=True)]
+    return len(set(ks)) == len(ks)
+
+
+def run_store_reference_correspondence(hs, res):
+    """R: the store-level reference `ARef.step` (Model/ARef.lean) against the shared store: reply and the whole store without
+    its internal ids (every node dictionary, every link between the (GraphID, NodeID) keys of its ends - links between nodes of
+    two graphs included) after every call; merges, key rewrites, imports, clones, delete_all_graphs are all followed.  The
+    refinement theorem needs pairwise distinct keys for merge_nodes only: a history is left at a merge in a store that has two
+    nodes with one key (counted)."""
+    lines, meta, impl = [], [], []
+    for hi, h in enumerate(hs):
+        be = L.Backend("shared")
+        lines.append(json.dumps(["R", "reset"]))
+        meta.append(None)
+        tr = []
+        for k, req in enumerate(h):
+            if req[0] == "merge_nodes" and not keys_unique(be):
+                res.count("R:left-at-merge-with-duplicate-keys")
+                break
+            rep = L.canon_reply(req[0], be.apply(req))
+            tr.append((rep, L.canon_keyed(be.keyed())))
+            lines.append(json.dumps(["R", req]))
+            meta.append((hi, k, "op"))
+            lines.append(json.dumps(["R", "snap"]))
+            meta.append((hi, k, "snap"))
+        impl.append(tr)
+    replies = LeanDriver("C05").run(lines)
+    bad = set()
+    for m, line in zip(meta, replies):
+        if m is None or m[0] in bad:
+            continue
+        hi, k, what = m
+        h = hs[hi]
+        rep = json.loads(line)
+        if what == "op":
+            res.evaluations += 1
+            res.count("R:op:%s" % h[k][0])
+            if L.writes_keys(h[k]):
+                res.count("R:key-rewrite:%s" % h[k][0])
+            exp = impl[hi][k][0]
+            got = L.canon_reply(h[k][0], rep)
+        else:
+            exp = impl[hi][k][1]
+            got = L.canon_keyed(rep[1]) if rep[0] == "ok" else rep
+        if canon(got) != canon(exp):
+            bad.add(hi)
+            res.disagreements.append({"case": {"flavour": "store-reference", "history": h[:k + 1]}, "at": [k, what],
+                                      "impl": exp, "model": got})
+
+
 # ------------------------------------------------------------------------------------------
 # oracle: the property on the implementation
 
@@ -411,14 +495,16 @@ def edge_table(be):
     return {(key, min(a, b), max(a, b)): dict(d) for key, G in be._graphs() for a, b, d in G.edges(data=True)}
 
 
-def neighbours(be, g, nid):
-    """[(NodeID of neighbour, sorted edge props)] of the node nid of graph g, read off the raw store"""
+def neighbours(be, g, nid, idents=None):
+    """[(NodeID of neighbour, sorted edge props)] of the node nid of graph g - or, with `idents`, of the nodes with these
+    internal identities (a merge policy may re-key the survivor) - read off the raw store; a link of the node to itself is
+    listed under `nid`"""
     out = []
     for key, G in be._graphs():
         if be.flavour == "disjoint" and key != g:
             continue
         for n, d in G.nodes(data=True):
-            if d.get("GraphID") == g and d.get("NodeID") == nid:
+            if ((key, n) in idents) if idents is not None else (d.get("GraphID") == g and d.get("NodeID") == nid):
                 for m in G.neighbors(n):
                     out.append((G.nodes[m].get("NodeID") if m != n else nid, dict(G.edges[n, m])))
     return out
@@ -427,8 +513,10 @@ def neighbours(be, g, nid):
 def check_history(h, res, with_ref=True):
     sh, dj = L.Backend("shared"), L.Backend("disjoint")
     ref = Ref() if with_ref else None
-    universe = sorted(set(r[1] for r in h) | set(r[3] for r in h if r[0] == "merge_nodes") |
-                      set(r[2] for r in h if r[0] == "find_matching_nodes") | {"g1", "g2", "g3"})
+    universe = set(r[1] for r in h) | set(r[2] for r in h if r[0] == "find_matching_nodes") | {"g1", "g2", "g3"}
+    for r in h:
+        universe |= (L.affected(r) or set())
+    universe = sorted(universe - {"*"})
     dj_live = True
 
     def bad(sig, what, k, **kw):
@@ -444,6 +532,7 @@ def check_history(h, res, with_ref=True):
         if op == "merge_nodes":
             nb_mine = neighbours(sh, req[1], req[2])
             nb_theirs = neighbours(sh, req[3], req[2])
+            id_mine = [i for i, d in tbl.items() if d.get("GraphID") == req[1] and d.get("NodeID") == req[2]]
             props_mine = [d for (key, n), d in tbl.items() if d.get("GraphID") == req[1] and d.get("NodeID") == req[2]]
             props_theirs = [d for (key, n), d in tbl.items() if d.get("GraphID") == req[3] and d.get("NodeID") == req[2]]
         r_sh = L.canon_reply(op, sh.apply(req))
@@ -461,11 +550,27 @@ def check_history(h, res, with_ref=True):
                 bad("backends:%s:%s-vs-%s" % (op, r_sh[0] if r_sh[0] == "ok" else r_sh[1], r_dj[0] if r_dj[0] == "ok" else r_dj[1]),
                     "%s: shared store answers %s, disjoint store %s" % (op, r_sh[:1] + [r_sh[1]] if r_sh[0] == "err" else "ok", r_dj[:2] if r_dj[0] == "err" else "ok"),
                     k, expected=r_sh, observed=r_dj)
+            if dj_live and writes_gid(req) and not all(dj.homed(g) for g in universe):
+                # re-homing a node by writing GraphID: the shared store moves it to the named graph, the one-graph-per-id
+                # store leaves it under its old key, where lookups (which filter on GraphID) no longer find it while
+                # delete_graph / clone_graph / find_matching_nodes (which walk the container) still do
+                bad("backends:%s:GraphID-rewritten" % op, "after %s wrote GraphID the disjoint store keeps the node under its old key "
+                    "(invisible to lookups, still counted by whole-container methods); the shared store re-homed it" % op, k,
+                    expected={g: sh.content(g) for g in universe if sh.content(g) != dj.content(g)},
+                    observed={g: dj.content(g) for g in universe if sh.content(g) != dj.content(g)})
+                dj_live = False
             if dj_live:
                 for g in universe:
                     if sh.content(g) != dj.content(g):
-                        bad("backends:%s:content" % op, "after %s the two backends hold different graphs" % op, k,
-                            expected=sh.content(g), observed=dj.content(g))
+                        if writes_gid(req):
+                            # re-homing a node by writing GraphID: the shared store moves it to the named graph, the
+                            # one-graph-per-id store leaves it under its old key where no lookup finds it any more
+                            bad("backends:%s:GraphID-rewritten" % op, "after %s wrote GraphID the two backends hold different graphs "
+                                "(the disjoint store keeps the node under its old key, invisible)" % op, k,
+                                expected=sh.content(g), observed=dj.content(g))
+                        else:
+                            bad("backends:%s:content" % op, "after %s the two backends hold different graphs" % op, k,
+                                expected=sh.content(g), observed=dj.content(g))
                         dj_live = False
                         break
         # (b) the reference model of the documented interface
@@ -516,11 +621,12 @@ def check_history(h, res, with_ref=True):
         # (d) a node id is unique within its graph whatever the class
         for g in universe:
             if uniq_before[g] and not nid_unique(sh, g):
-                bad("nid_unique:%s:%s" % (op, "same-id-other-class" if op == "add_node" else "lost"),
-                    "after %s graph %s holds two nodes with one NodeID" % (op, g), k)
+                how = ("GraphID-rewritten" if writes_gid(req) or (op == "merge_nodes" and "GraphID" in (req[4] or {})) else
+                       "NodeID-rewritten" if L.writes_keys(req) else "same-id-other-class" if op == "add_node" else "lost")
+                bad("nid_unique:%s:%s" % (op, how), "after %s graph %s holds two nodes with one NodeID" % (op, g), k)
         # (e) merge keeps every edge of both nodes and applies the policy
         if op == "merge_nodes" and r_sh[0] == "ok" and len(props_mine) == 1 and len(props_theirs) == 1:
-            after = neighbours(sh, req[1], req[2])
+            after = neighbours(sh, req[1], req[2], idents=set(id_mine))
             have = sorted(canon(x[0]) for x in after)
             for nbr, d in nb_mine + nb_theirs:
                 if canon(nbr) not in have:
@@ -534,7 +640,7 @@ def check_history(h, res, with_ref=True):
                     bad("merge:edge-foreign-key:%s" % sorted(extra)[0], "after merge_nodes an edge carries a property neither edge had", k,
                         observed=sorted(extra))
             mine, theirs = props_mine[0], props_theirs[0]
-            now = [d for d in node_table(sh).values() if d.get("GraphID") == mine.get("GraphID") and d.get("NodeID") == req[2]]
+            now = [d for i, d in node_table(sh).items() if i in id_mine]
             pol = req[4] or {}
             if len(now) == 1:
                 for p, v in mine.items():
@@ -546,6 +652,12 @@ def check_history(h, res, with_ref=True):
                     bad("merge:policy:keys", "merged node has other property names than the caller's node", k,
                         expected=sorted(mine), observed=sorted(now[0]))
     return sh
+
+
+def writes_gid(req):
+    op = req[0]
+    return ((op == "add_node" and bool(req[4]) and "GraphID" in req[4]) or (op == "update_node_property" and req[3] == "GraphID")
+            or (op == "update_nodes_property" and req[2] == "GraphID") or (op == "update_node_properties" and "GraphID" in req[3]))
 
 
 def nid_unique(be, g):
@@ -601,6 +713,7 @@ def small_alphabet():
 
 def oracle(ctx, res, n=None, length=40, exhaustive=None):
     hs = gen_histories(ctx, "oracle", n or ctx.scale(300, 3000), length)
+    hs += gen_histories(ctx, "oracle-keys", (n or ctx.scale(300, 3000)) // 3, length, keys=0.1)[len(load_corpus()):]
     for h in hs:
         res.evaluations += 1
         check_history(h, res)
